@@ -152,6 +152,16 @@ func dsStrategyAnno(s *dsState) string {
 	return string(b)
 }
 
+// dsReadyOf: pods that are ready but not yet available (inside the minReadySeconds window): half of the pods that are not
+// available, rounded up. The controller's scaling decisions read availableReplicas only, so this is invisible on the unchanged
+// code; a helper that confuses the two counters is not.
+func dsReadyOf(pods, avail int) int {
+	if pods <= avail {
+		return avail
+	}
+	return avail + (pods-avail+1)/2
+}
+
 func dsMakeRS(r *dsRS, image string) *apps.ReplicaSet {
 	tmpl := dsTemplate(image)
 	tmpl.Labels[apps.DefaultDeploymentUniqueLabelKey] = r.Name
@@ -170,7 +180,7 @@ func dsMakeRS(r *dsRS, image string) *apps.ReplicaSet {
 			Selector: &metav1.LabelSelector{MatchLabels: map[string]string{"app": "x", apps.DefaultDeploymentUniqueLabelKey: r.Name}},
 			Template: tmpl,
 		},
-		Status: apps.ReplicaSetStatus{Replicas: int32(r.Pods), ReadyReplicas: int32(r.Avail), AvailableReplicas: int32(r.Avail)},
+		Status: apps.ReplicaSetStatus{Replicas: int32(r.Pods), ReadyReplicas: int32(dsReadyOf(r.Pods, r.Avail)), AvailableReplicas: int32(r.Avail)},
 	}
 	if r.Revision != 0 {
 		rs.Annotations[deploymentutil.RevisionAnnotation] = strconv.Itoa(r.Revision)
@@ -447,7 +457,7 @@ func (cl *dsCluster) post(in *dsState) J {
 func (cl *dsCluster) setStatus(name string, pods, avail int) {
 	rs := cl.rss()[name]
 	rs.Status.Replicas = int32(pods)
-	rs.Status.ReadyReplicas = int32(avail)
+	rs.Status.ReadyReplicas = int32(dsReadyOf(pods, avail))
 	rs.Status.AvailableReplicas = int32(avail)
 	if _, err := cl.cs.AppsV1().ReplicaSets(dsNS).UpdateStatus(context.TODO(), rs, metav1.UpdateOptions{}); err != nil {
 		panic(err)
